@@ -33,42 +33,45 @@ Cut(s, n) == [i \in 1..n |-> s[i]]
 
 OutJson(o) == [err |-> o.err, W |-> o.W, hasPos |-> o.hasPos, cands |-> o.cands,
                hasVel |-> o.hasVel, velnum |-> o.velnum,
-               hasF |-> o.hasF, fnum |-> o.fnum, fden |-> o.fden, mass |-> o.mass]
-Rec(op, B, P, Vv, Ff) ==
-  LET o1 == MolOut(B, md, P, Vv, Ff, fl)
-      o2 == MolOut(B, md, Pos2(B, P), Vv, Ff, fl)
-  IN [op |-> op, box |-> <<B.a, B.b, B.c>>, typ |-> AutoType(B),
+               hasF |-> o.hasF, fnum |-> o.fnum, fden |-> o.fden, mass |-> o.mass, ell |-> o.ell]
+Rec(op, arg, B, P, Vv, Ff, ff) ==
+  LET o1 == MolOut(B, md, P, Vv, Ff, ff)
+      o2 == MolOut(B, md, Pos2(B, P), Vv, Ff, ff)
+  IN [op |-> op, arg |-> arg, fl |-> ff, box |-> <<B.a, B.b, B.c>>, typ |-> AutoType(B),
       pos |-> P, pos2 |-> Pos2(B, P), vel |-> Vv, frc |-> Ff,
       err |-> FrameErr(o1 \o o2),
       out |-> [b \in 1..Len(o1) |-> OutJson(o1[b])],
       out2 |-> [b \in 1..Len(o2) |-> OutJson(o2[b])]]
 
+\* the flags (which atoms carry positions / velocities / forces) belong to the frame: a
+\* trajectory may have velocities or forces in some frames only
 Init == /\ md \in MapDefs
-        /\ fl \in FlagSet
+        /\ fl = [hp |-> TRUE, hv |-> "none", hf |-> "none"]
         /\ box = ZeroBox /\ pos = <<>> /\ vel = <<>> /\ frc = <<>>
         /\ h = <<>>
 
-LoadFrame == \E B \in Boxes, c \in Confs, base \in Bases :
+LoadFrame == \E B \in Boxes, c \in Confs, base \in Bases, ff \in FlagSet :
                /\ box' = B
+               /\ fl' = ff
                /\ pos' = PosOf(c, base, md.n)
                /\ vel' = Cut(c.vel, md.n)
                /\ frc' = Cut(c.frc, md.n)
-               /\ h' = Append(h, Rec("load", B, pos', vel', frc'))
+               /\ h' = Append(h, Rec("load", 0, B, pos', vel', frc', ff))
 ShiftParent == /\ h # <<>> /\ ~IsZeroBox(box)
                /\ \E i \in 1..md.n, k \in KSet :
                     /\ pos' = [pos EXCEPT ![i] = Image(box, @, k)]
-                    /\ h' = Append(h, Rec("shift", box, pos', vel, frc))
-               /\ UNCHANGED <<box, vel, frc>>
+                    /\ h' = Append(h, Rec("shift", i, box, pos', vel, frc, fl))
+               /\ UNCHANGED <<box, vel, frc, fl>>
 TranslateAll == /\ h # <<>>
                 /\ \E t \in TSet :
                      /\ pos' = [i \in 1..md.n |-> VAdd(pos[i], t)]
-                     /\ h' = Append(h, Rec("trans", box, pos', vel, frc))
-                /\ UNCHANGED <<box, vel, frc>>
+                     /\ h' = Append(h, Rec("trans", 0, box, pos', vel, frc, fl))
+                /\ UNCHANGED <<box, vel, frc, fl>>
 MdInitError == \E b \in 1..Len(md.beads) : InitError(md.beads[b])
 Next == /\ Len(h) < Depth
         /\ ~MdInitError           \* such a mapping is refused when the map is created
         /\ (LoadFrame \/ ShiftParent \/ TranslateAll)
-        /\ UNCHANGED <<md, fl>>
+        /\ UNCHANGED md
 Spec == Init /\ [][Next]_vars
 
 \* ---- properties ------------------------------------------------------------------------
@@ -125,5 +128,5 @@ ThAlgo == LET Cur == TLCEval(CurOut) IN (Fr /\ Theorems /\ fl.hp) =>
                                      /\ \E j \in 1..np : ~BelowHalfHeight(box, ad2[j])
 
 Leaf == (Emit /\ (Len(h) = Depth \/ MdInitError)) =>
-          PrintT(ToJson([md |-> md, fl |-> fl, h |-> h, initerr |-> MdInitError]))
+          PrintT(ToJson([md |-> md, h |-> h, initerr |-> MdInitError]))
 =============================================================================
